@@ -100,6 +100,7 @@ type Frame struct {
 	curLocals map[string]func(*State) SV
 	curLocalAddrs map[string]SV
 	localsSameBlock bool
+	frame *frameInfo
 }
 
 type retRec struct {
@@ -418,7 +419,10 @@ func (fc *FnCtx) alloc(st *State) string {
 }
 
 func (fc *FnCtx) rootAx(p string) {
-	// ground root axioms for constructed addresses
+	// root is axiomatised in the prelude (pattern-based); nothing to emit
+	if true {
+		return
+	}
 	switch {
 	case strings.HasPrefix(p, "(Base "):
 		fc.assume("true", eq(app("root", p), splitTop(p)[1]))
@@ -675,6 +679,11 @@ func (fr *Frame) walk(entry *State, params []SV, entryGuard string) {
 					fc.assume(g, fc.tc.wf(v, phi.Type(), fc.watermark(st)))
 				}
 				fr.assumeInvariants(li, st, g)
+				if lw["*"] {
+					fr.assumeFrame(st, g, nil)
+				} else {
+					fr.assumeFrame(st, g, lw)
+				}
 			} else {
 				for _, in := range b.Instrs {
 					phi, ok := in.(*ssa.Phi)
@@ -722,6 +731,11 @@ func (fr *Frame) walk(entry *State, params []SV, entryGuard string) {
 				}
 				e := inEdge{pred: b, pidx: pidx, guard: and(g, fr.edgeCond(b, si))}
 				fr.checkInvariants(li, e, "inv-keep")
+				if blw := fc.loopWrites[fmt.Sprintf("%s#%d", fr.prefix, s.Index)]; blw["*"] {
+					fr.checkFrame(st, e.guard, fmt.Sprintf("L%d", li.ordinal), loopPos(li), nil)
+				} else {
+					fr.checkFrame(st, e.guard, fmt.Sprintf("L%d", li.ordinal), loopPos(li), blw)
+				}
 			}
 		}
 	}
